@@ -669,3 +669,12 @@ def generated_member_readers_are_marked_not_polled_on_every_path(ctx):
                       'thread reads the member parameter although only the struct is to be polled', f)
     if not n:
         raise AnchorMissing('generated reader with `<func>.poll = False` not found in StructParam')
+
+
+@rule('C13.R11', min_instances=1)
+def the_polling_host_has_its_wake_up_event(ctx):
+    """shared with C15.R8: the poll thread of a host (a module itself, or its io module) waits on host.triggerPoll; initModule
+    creates the missing event ON THE HOST.  Created on the registering module instead, an io module without polls of its own keeps
+    triggerPoll = None: its poll thread ends with AttributeError after the first sweep and none of its modules is polled again"""
+    from sa.rules import c15
+    c15.hosting_a_polled_module_creates_the_wake_up_event(ctx)
